@@ -12,10 +12,11 @@ import (
 // Reference model: the scenario ends every quiet period (long enough for the documented bounds: start-up
 // delay + heart-beat interval + tolerance + three monitor rounds) with a "stable" note listing the live
 // instances in join order. At that moment
-//   R1  every live member's numbering in effect is (its position in join order, number of live members);
-//   R2  every live member has announced a numbering at all (a new instance is admitted, GetInfo returned);
-//   R3  between two announcements of one member the numbering differs (announce only on change);
-//   R4  no member terminates the process while it is alive and the network is fault-free.
+//
+//	R1  every live member's numbering in effect is (its position in join order, number of live members);
+//	R2  every live member has announced a numbering at all (a new instance is admitted, GetInfo returned);
+//	R3  between two announcements of one member the numbering differs (announce only on change);
+//	R4  no member terminates the process while it is alive and the network is fault-free.
 func init() { checkers["C10"] = checkC10 }
 
 func checkC10(run *Run, res *Result) {
